@@ -357,4 +357,22 @@ PROPS = {
                                         "a commit larger than the memtable arena is outside this check (it fails and poisons the arena: see C15)"],
         "trusted_base": ["modelled, not verified: recovery at record granularity; LevelManifest::load_from_file validations are exercised, not modelled"],
     },
+    "C09": {
+        "lean": ["Skv.Props.C09"], "audit": "Skv/Audit/C09.lean",
+        "streams": [{"name": "cursor", "harness": "c09", "driver": "c09", "quick_cases": 600, "thorough_cases": 12000,
+                     "nontrivial": lambda lines: any(l.startswith("ws") for l in lines) and
+                                    any(a.split(" ")[0] in ("last", "prev") and b.split(" ")[0] == "next" or
+                                        a.split(" ")[0] in ("first", "seek", "next") and b.split(" ")[0] == "prev"
+                                        for a, b in zip(lines, lines[1:]))}],
+        "rule": "layouts of 3-12 keys (prefix-related, 0x00/0xff bytes) with 1-4 versions and tombstones per key spread over the "
+                "write set, the active memtable, immutable memtables and tables on 1-3 levels (block size 64-4096, index partitions "
+                "of 64 bytes), commits after the transaction began; cursors with both bounds, either bound absent, empty and inverted "
+                "ranges; programs of 2-14 (thorough 2-40) calls over seek(target inside the bounds)/seek_first/seek_last/next/prev "
+                "respecting the precondition (next/prev only on a valid cursor); every call's valid/key/value compared with the model "
+                "and the list-cursor specification; non-trivial = non-empty write set and a direction reversal; distinct = distinct op lists",
+        "assumptions": ["the snapshot side (SnapshotIterator over KMergeIterator over memtable and table cursors) is modelled as a "
+                        "cursor over the live keys of the snapshot; its own refinement proof is not done — the real stack runs "
+                        "underneath the correspondence"],
+        "trusted_base": ["modelled, not verified: TransactionRangeIterator::{position_to_min,position_to_max,seek*,next,prev}"],
+    },
 }
